@@ -258,7 +258,7 @@ class VMap(V):
 
 
 class VLock(V):
-  __slots__ = ('name', 'held', 'events', 'reentrant', 'cond', 'f_notify', 'f_notify_all')
+  __slots__ = ('name', 'held', 'events', 'reentrant', 'cond', 'f_notify', 'f_notify_all', 'recheck', 'last_release')
 
   def __init__(self, name, reentrant=False, cond=False):
     self.name = name
@@ -268,6 +268,8 @@ class VLock(V):
     self.cond = cond
     self.f_notify = z3.BoolVal(False)       # ghost: some waiter was notified during the operation
     self.f_notify_all = z3.BoolVal(False)   # ghost: all waiters were notified
+    self.recheck = False        # monitor rule: the waited-for condition must be re-tested after the last release
+    self.last_release = 0
 
   def __repr__(self):
     return f'VLock({self.name}, held={self.held})'
